@@ -229,6 +229,7 @@ theorem cstep_of_CStep {s t : CState} (h : CStep s t) : cstep s = some t := by
   | finEmpty rest ch flt fs ok hpc hprog herr hch hlt hpos hp => simp [cstep, hpc, hprog, herr, hch, hlt, hpos, hp]
   | pull rest hpc hprog => simp [cstep, hpc, hprog]
   | clear rest hpc hprog => simp [cstep, hpc, hprog]
+  | reject rest hpc hprog => simp [cstep, hpc, hprog]
   | send ch wr hpc hch hsend => simp [cstep, hpc, hch, hsend]
   | recvErr e rest r hpc hpool hprog herr => simp [cstep, hpc, hpool, hprog, herr]
   | recvOk e rest hpc hpool hprog herr => simp [cstep, hpc, hpool, hprog, herr]
@@ -336,6 +337,9 @@ theorem proj_CStep (v : View) {s t : CState} (hw : v.n0 ≤ s.writers.length) (h
     obtain ⟨e1, e2⟩ := proj_clearF v s
     rw [e1, ← e2]
     exact .clear _ hpc (proj_prog_cons v hp hprog)
+  | reject rest hpc hprog =>
+    rw [proj_finishOp v s _ none ho hp]
+    exact .reject _ hpc (proj_prog_cons v hp hprog)
   | send ch wr hpc hch hsend =>
     have e : proj v { s with writable := wr, wg := s.wg + 1, writers := s.writers ++ [{}], pc := CPc.pushRecv }
         = { proj v s with writable := wr, wg := (proj v s).wg + 1, writers := (proj v s).writers ++ [{}], pc := CPc.pushRecv } := by
@@ -434,6 +438,7 @@ theorem CStep_shape {s t : CState} (h : CStep s t) :
   | clear rest hpc hprog =>
     have fr := clearF_frame s
     exact Or.inr ⟨_, _, _, rfl, fr.outs, fr.prog, fr.writers, fr.conc⟩
+  | reject rest hpc hprog => exact Or.inr ⟨_, _, _, rfl, rfl, rfl, rfl, rfl⟩
   | send ch wr hpc hch hsend => exact Or.inl ⟨rfl, rfl, Or.inr rfl⟩
   | recvErr e rest r hpc hpool hprog herr => exact Or.inr ⟨_, _, _, rfl, rfl, rfl, rfl, rfl⟩
   | recvOk e rest hpc hpool hprog herr => exact Or.inr ⟨_, _, _, rfl, rfl, rfl, rfl, rfl⟩
@@ -698,12 +703,12 @@ theorem HInv_step {H : List Cycle} {s t : CState} {i : Nat} (hc : 1 ≤ c) (hs :
           = ⟨r, x, s1.m.len, s1.m.pos⟩ :: (proj (viewOf pre todo n0) s).outs := by
         show (finishOp s1 r x).outs.take _ = _
         rw [houtsT]; exact take_sub_cons _ _ _ hnpre
-      have hgood : (r = .ok ∨ r = .eof ∨ r = .finalised) → HInv c ac H (finishOp s1 r x) := by
+      have hgood : (r = .ok ∨ r = .eof ∨ r = .finalised ∨ r = .rejected) → HInv c ac H (finishOp s1 r x) := by
         intro hr
         have hprogT : (finishOp s1 r x).prog = s.prog.tail := by
           show (if r = .panic ∨ r = .hang then [] else if r = .ioerr then _ else s1.prog.tail) = _
           rw [hp]
-          rcases hr with rfl | rfl | rfl <;> simp
+          rcases hr with rfl | rfl | rfl | rfl <;> simp
         apply HInv_of_view c ac hs' hin.hist hin.spec hin.wf
         · show n0 ≤ s1.writers.length; rw [hw]; exact hin.n0le
         · show ∀ w ∈ s1.writers.take n0, _; rw [hw]; exact hin.old
@@ -716,7 +721,8 @@ theorem HInv_step {H : List Cycle} {s t : CState} {i : Nat} (hc : 1 ≤ c) (hs :
       cases r with
       | ok => exact hgood (Or.inl rfl)
       | eof => exact hgood (Or.inr (Or.inl rfl))
-      | finalised => exact hgood (Or.inr (Or.inr rfl))
+      | finalised => exact hgood (Or.inr (Or.inr (Or.inl rfl)))
+      | rejected => exact hgood (Or.inr (Or.inr (Or.inr rfl)))
       | ioerr => exact Or.inl (Reported_finish x)
       | hang =>
         by_cases hr2 : Reported (proj (viewOf pre todo n0) (finishOp s1 .hang x))
